@@ -31,7 +31,37 @@ pub struct UdpScn {
     pub junk: Option<Junk>,
     /// long flow: the exchanges of `sizes` are repeated this many times on the same sockets (1 = once)
     pub rounds: usize,
+    /// SOCKS5 only: ONE association (one control connection, one relay address) used by `clients` local sockets
+    /// of the same host (see `SharedOrder`); `idle_ms`, `oneway`, `junk`, `rounds` do not apply
+    pub shared: Option<SharedOrder>,
     pub seed: u64,
+}
+
+/// Several local sockets on one SOCKS5 UDP association: how the `clients` sockets (same IP, different source
+/// ports, all sending to the one relay address) take their turns.  In every case ALL sockets listen all the
+/// time: a reply at a socket that did not send the request is seen.
+#[derive(Clone, Copy, Debug, PartialEq, Eq)]
+pub enum SharedOrder {
+    /// every exchange of `sizes`: all sockets send to all targets at the same time
+    Concurrent,
+    /// socket 0 has all its exchanges alone, then socket 1, ...; then one exchange of all sockets at once
+    Sequential,
+    /// the exchanges of `sizes` by all sockets at once; then socket 0 is CLOSED and a new local socket (new
+    /// source port) takes its place on the same association, the control connection untouched; then the
+    /// exchanges of `sizes` again (`clients` + 1 sockets over the life of the association)
+    Renew,
+}
+
+pub const SHARED_ORDERS: [SharedOrder; 3] = [SharedOrder::Concurrent, SharedOrder::Sequential, SharedOrder::Renew];
+
+impl SharedOrder {
+    pub fn text(self) -> &'static str {
+        match self {
+            SharedOrder::Concurrent => "concurrent",
+            SharedOrder::Sequential => "sequential",
+            SharedOrder::Renew => "renew",
+        }
+    }
 }
 
 /// What is sent to the relay socket instead of a well-formed request (RFC 1928 section 7: RSV(2) = 0, FRAG,
@@ -191,8 +221,12 @@ impl UdpScn {
             None => String::new(),
             Some(j) => format!(" junk={} by={} when={}", j.kind.text(), if j.other { "other" } else { "own" }, if j.before { "before" } else { "after" }),
         };
+        let shared = match &self.shared {
+            None => String::new(),
+            Some(o) => format!(" assoc=shared order={}", o.text()),
+        };
         format!(
-            "udp via={} clients={} targets={} sizes={} replies={} domain={} idle={}{rounds}{oneway}{junk} seed={}",
+            "udp via={} clients={} targets={} sizes={} replies={} domain={} idle={}{rounds}{oneway}{junk}{shared} seed={}",
             if self.socks { "socks5" } else { "udp-remote" },
             self.clients,
             self.targets.iter().map(ToString::to_string).collect::<Vec<_>>().join(","),
@@ -208,7 +242,8 @@ impl UdpScn {
         if t.next()? != "udp" {
             return None;
         }
-        let mut s = UdpScn { socks: false, clients: 1, targets: vec![0], sizes: vec![8], replies: 1, domain: false, idle_ms: 0, oneway: None, junk: None, rounds: 1, seed: 0 };
+        let mut s = UdpScn { socks: false, clients: 1, targets: vec![0], sizes: vec![8], replies: 1, domain: false, idle_ms: 0, oneway: None, junk: None, rounds: 1, shared: None, seed: 0 };
+        let mut assoc_shared = false;
         for kv in t {
             let (k, v) = kv.split_once('=')?;
             match k {
@@ -229,6 +264,8 @@ impl UdpScn {
                 "junk" => s.junk.get_or_insert(Junk { kind: JunkKind::Empty, other: false, before: false }).kind = *JUNK_KINDS.iter().find(|k| k.text() == v)?,
                 "by" => s.junk.get_or_insert(Junk { kind: JunkKind::Empty, other: false, before: false }).other = match v { "other" => true, "own" => false, _ => return None },
                 "when" => s.junk.get_or_insert(Junk { kind: JunkKind::Empty, other: false, before: false }).before = match v { "before" => true, "after" => false, _ => return None },
+                "assoc" => assoc_shared = match v { "shared" => true, "own" => false, _ => return None },
+                "order" => s.shared = Some(*SHARED_ORDERS.iter().find(|o| o.text() == v)?),
                 "seed" => s.seed = v.parse().ok()?,
                 _ => return None,
             }
@@ -238,6 +275,14 @@ impl UdpScn {
         }
         if !s.socks {
             s.junk = None; // every datagram is a valid datagram for a fixed UDP remote
+        }
+        if assoc_shared && s.socks {
+            // the family of its own: none of the other extras applies
+            s.shared.get_or_insert(SharedOrder::Concurrent);
+            s.clients = s.clients.min(4);
+            (s.idle_ms, s.oneway, s.junk, s.rounds) = (0, None, None, 1);
+        } else {
+            s.shared = None;
         }
         if let Some(o) = &mut s.oneway {
             o.streamers = o.streamers.min(s.clients);
@@ -378,6 +423,9 @@ pub struct UdpOutcome {
     pub map_entries: usize,
     /// junk datagrams from which the relay read a destination and which it relayed (RSV != 0: observation)
     pub junk_relayed: usize,
+    /// several sockets on one association: local sockets that used the association, of them created after another was closed
+    pub shared_sockets: usize,
+    pub shared_renewed: usize,
 }
 
 fn mk_payload(nonce: u32, client: usize, target: usize, seq: u32, len: usize, rng: &mut pvhf::Rng) -> Vec<u8> {
@@ -441,6 +489,17 @@ async fn collect(w: &World, sc: &UdpScn, clients: &[Client], sent: &[Sent], tail
                                 out.hdr_client += 1;
                             } else {
                                 out.hdr_other += 1;
+                                // several sockets on one association: the header must not name ANOTHER of these sockets or
+                                // a target this socket never addressed (a conforming client reads the sender out of it)
+                                if sc.shared.is_some() {
+                                    let other_socket = clients.iter().enumerate().find(|(cj, o)| *cj != ci && host == o.addr.ip().to_string() && port == o.addr.port());
+                                    let other_target = w.udp_targets.iter().position(|t| host == t.addr.ip().to_string() && port == t.addr.port());
+                                    if let Some((cj, o)) = other_socket {
+                                        out.bad.push(("reply-header-names-wrong-address".into(), format!("the RFC 1928 header of a reply delivered to socket {ci} ({}) names {host}:{port}, the address of socket {cj} ({}) of the same association", c.addr, o.addr)));
+                                    } else if let Some(t) = other_target {
+                                        out.bad.push(("reply-header-names-wrong-address".into(), format!("the RFC 1928 header of a reply delivered to socket {ci} ({}) names {host}:{port}, target {t}, to which this socket sent nothing in this exchange", c.addr)));
+                                    }
+                                }
                             }
                             body
                         }
@@ -549,7 +608,25 @@ async fn round_tail(
     tail: Duration,
     out: &mut UdpOutcome,
 ) {
-    let pairs: Vec<(usize, usize)> = (0..clients.len()).flat_map(|c| sc.targets.iter().map(move |t| (c, *t))).collect();
+    let all: Vec<usize> = (0..clients.len()).collect();
+    round_active(w, sc, clients, &all, len, seq, nonce, rng, tail, out).await;
+}
+
+/// Only the sockets `active` send; every socket of `clients` listens.
+#[allow(clippy::too_many_arguments)]
+async fn round_active(
+    w: &World,
+    sc: &UdpScn,
+    clients: &[Client],
+    active: &[usize],
+    len: usize,
+    seq: u32,
+    nonce: u32,
+    rng: &mut pvhf::Rng,
+    tail: Duration,
+    out: &mut UdpOutcome,
+) {
+    let pairs: Vec<(usize, usize)> = active.iter().flat_map(|c| sc.targets.iter().map(move |t| (*c, *t))).collect();
     let groups: Vec<Vec<(usize, usize)>> = if len >= 10 { vec![pairs] } else { pairs.into_iter().map(|p| vec![p]).collect() };
     for group in groups {
         let marks: Vec<usize> = w.udp_targets.iter().map(|t| t.log.lock().unwrap().got.len()).collect();
@@ -829,12 +906,190 @@ fn after_junk(j: &Junk, what: &str, clients: &[Client], out: &mut UdpOutcome) {
     }
 }
 
+/// The real maps (through Debug): consistent, and every (live) client socket of this scenario is in them.
+fn check_maps(w: &World, sc: &UdpScn, clients: &[Client], out: &mut UdpOutcome) {
+    match w.maps_snapshot() {
+        Err(e) if e == "maps locked" => {}
+        Err(e) => out.infra = Some(format!("maps snapshot: {e}")),
+        Ok(m) => {
+            out.map_entries = m.ids.len();
+            if let Err(e) = maps_consistent(&m) {
+                out.bad.push(("client-maps-inconsistent".into(), e));
+            }
+            for (ci, c) in clients.iter().enumerate() {
+                let ours: Vec<SocketAddr> = if sc.socks {
+                    vec![c.relay.unwrap()]
+                } else {
+                    sc.targets.iter().map(|t| SocketAddr::from(([127, 0, 0, 1], w.udp_remote_ports[*t]))).collect()
+                };
+                for our in ours {
+                    let n = m.ids.iter().filter(|(_, p, o, s5)| *p == c.addr && *o == our && *s5 == sc.socks).count();
+                    if n != 1 {
+                        out.bad.push(("client-maps-missing-entry".into(), format!("client {ci} ({}) via {our}: {n} entries in the client id map right after its exchange", c.addr)));
+                    }
+                }
+            }
+        }
+    }
+}
+
+/// Several local sockets on ONE SOCKS5 UDP association (`SharedOrder`): one UDP ASSOCIATE, one control
+/// connection, one relay address; `clients` local sockets of the same host (same IP, different source ports)
+/// send their tagged datagrams to that relay address.  RFC 1928 section 6 lets the client announce
+/// 0.0.0.0:0 in UDP ASSOCIATE (as here) precisely because it may not know its source ports; the relay may
+/// limit an association by the client's IP address, not by a port.  The oracle is the property statement:
+/// every datagram reaches its target unmodified and once, every reply arrives at exactly the socket that
+/// sent the request (every socket listens all the time), from the relay address, behind a well-formed RFC
+/// 1928 header that names neither another of these sockets nor a target this socket did not address,
+/// payload unmodified, once.
+async fn run_shared(w: &World, sc: &UdpScn, order: SharedOrder, nonce: u32, rng: &mut pvhf::Rng, out: &mut UdpOutcome) {
+    let (ctl, relay) = match associate(w).await {
+        Ok(x) => x,
+        Err(e) => {
+            let k = if e.starts_with("HANG") { "socks5-associate-hangs" } else { "socks5-associate-failed" };
+            out.bad.push((k.into(), e));
+            return;
+        }
+    };
+    let mut ctl = Some(ctl);
+    let mut clients: Vec<Client> = vec![];
+    for _ in 0..sc.clients.clamp(1, 4) {
+        match UdpSocket::bind("127.0.0.1:0").await {
+            Ok(sock) => {
+                let addr = sock.local_addr().unwrap();
+                clients.push(Client { sock, addr, relay: Some(relay), ctl: ctl.take() });
+            }
+            Err(e) => {
+                out.infra = Some(format!("bind: {e}"));
+                return;
+            }
+        }
+    }
+    out.shared_sockets = clients.len();
+    let tail = Duration::from_millis(40);
+    let all: Vec<usize> = (0..clients.len()).collect();
+    let mut seq = 0u32;
+    // keys of this family, what was going on, and whether anybody was told (the control connection)
+    let finish = |out: &mut UdpOutcome, clients: &[Client], phase: &str, doing: &str| {
+        let ctl = match clients.iter().find_map(|c| c.ctl.as_ref()).map(|c| c.try_read(&mut [0u8; 1])) {
+            Some(Ok(0)) => "the association's TCP control connection has been closed by the relay",
+            Some(Err(e)) if e.kind() == std::io::ErrorKind::WouldBlock => "the association's TCP control connection is still open, nothing was reported on it",
+            Some(_) => "the association's TCP control connection carries data or an error",
+            None => "",
+        };
+        let socks: Vec<String> = clients.iter().enumerate().map(|(i, c)| format!("socket {i} = {}", c.addr)).collect();
+        let mut seen: Vec<String> = vec![];
+        let mut kept: Vec<(String, String)> = vec![];
+        let mut more: HashMap<String, usize> = HashMap::new();
+        for (k, d) in out.bad.drain(..) {
+            let k = match k.as_str() {
+                "datagram-not-delivered" | "reply-not-delivered" => "reply-missing",
+                "reply-misrouted" => "reply-to-wrong-socket",
+                o => o,
+            };
+            let key = format!("shared-association:{phase}{k}");
+            if seen.contains(&key) {
+                *more.entry(key).or_default() += 1;
+                continue;
+            }
+            seen.push(key.clone());
+            kept.push((
+                key,
+                format!(
+                    "{} local sockets of one host ({}; 'client' = socket below) use ONE SOCKS5 UDP association (relay address {relay}, one control connection, UDP ASSOCIATE announced 0.0.0.0:0); {doing}: {d}; {ctl}",
+                    clients.len(),
+                    socks.join(", ")
+                ),
+            ));
+        }
+        for (k, d) in &mut kept {
+            if let Some(n) = more.get(k) {
+                d.push_str(&format!(" (and {n} more of the same kind in this exchange)"));
+            }
+        }
+        out.bad = kept;
+    };
+    match order {
+        SharedOrder::Concurrent | SharedOrder::Renew => {
+            for len in &sc.sizes {
+                seq += 1;
+                round_active(w, sc, &clients, &all, *len, seq, nonce, rng, tail, out).await;
+                if !out.bad.is_empty() || out.infra.is_some() {
+                    finish(out, &clients, "", &format!("exchange {seq}: every socket sends a {len}-byte datagram to every target at the same time"));
+                    return;
+                }
+            }
+        }
+        SharedOrder::Sequential => {
+            for k in 0..clients.len() {
+                for len in &sc.sizes {
+                    seq += 1;
+                    round_active(w, sc, &clients, &[k], *len, seq, nonce, rng, tail, out).await;
+                    if !out.bad.is_empty() || out.infra.is_some() {
+                        let before = if k == 0 { "the first socket to use the association".to_string() } else { format!("after socket(s) 0..{} had all their exchanges", k - 1) };
+                        finish(out, &clients, "", &format!("exchange {seq}: socket {k} alone sends a {len}-byte datagram to every target ({before}; all sockets listen)"));
+                        return;
+                    }
+                }
+            }
+            seq += 1;
+            round_active(w, sc, &clients, &all, 33, seq, nonce, rng, tail, out).await;
+            if !out.bad.is_empty() || out.infra.is_some() {
+                finish(out, &clients, "", &format!("exchange {seq}: after every socket had its exchanges alone, all sockets send a 33-byte datagram to every target at the same time"));
+                return;
+            }
+        }
+    }
+    if order == SharedOrder::Renew {
+        // a new local socket first (so that it cannot get the old port), then the old one is closed
+        let sock = match UdpSocket::bind("127.0.0.1:0").await {
+            Ok(s) => s,
+            Err(e) => {
+                out.infra = Some(format!("bind: {e}"));
+                return;
+            }
+        };
+        let addr = sock.local_addr().unwrap();
+        let old = clients[0].addr;
+        let ctl = clients[0].ctl.take();
+        clients[0] = Client { sock, addr, relay: Some(relay), ctl }; // drops (closes) the old socket; the control connection lives on
+        out.shared_sockets += 1;
+        out.shared_renewed += 1;
+        let first = seq;
+        for len in &sc.sizes {
+            seq += 1;
+            round_active(w, sc, &clients, &all, *len, seq, nonce, rng, tail, out).await;
+            if !out.bad.is_empty() || out.infra.is_some() {
+                finish(
+                    out,
+                    &clients,
+                    "after-new-socket:",
+                    &format!(
+                        "after {first} exchange(s) socket 0 ({old}) was closed and a new local socket ({addr}, now socket 0) goes on using the same association, the control connection untouched; exchange {} after that: every socket sends a {len}-byte datagram to every target at the same time",
+                        seq - first
+                    ),
+                );
+                return;
+            }
+        }
+    }
+    // the client's maps: one entry per live socket, all on the one relay socket
+    check_maps(w, sc, &clients, out);
+    if !out.bad.is_empty() {
+        finish(out, &clients, "", "after all exchanges");
+    }
+}
+
 pub async fn run_udp(w: Arc<World>, sc: UdpScn) -> UdpOutcome {
     let mut out = UdpOutcome::default();
     let mut rng = pvhf::Rng::new(sc.seed ^ 0xD6);
     let nonce = rng.next() as u32;
     for t in &w.udp_targets {
         t.replies.store(sc.replies, Ordering::SeqCst);
+    }
+    if let (true, Some(order)) = (sc.socks, sc.shared) {
+        run_shared(&w, &sc, order, nonce, &mut rng, &mut out).await;
+        return out;
     }
     let mut clients = vec![];
     for _ in 0..sc.clients {
@@ -960,29 +1215,6 @@ pub async fn run_udp(w: Arc<World>, sc: UdpScn) -> UdpOutcome {
             }
         }
     }
-    // the real maps (through Debug): consistent, and every client of this scenario is in them
-    match w.maps_snapshot() {
-        Err(e) if e == "maps locked" => {}
-        Err(e) => out.infra = Some(format!("maps snapshot: {e}")),
-        Ok(m) => {
-            out.map_entries = m.ids.len();
-            if let Err(e) = maps_consistent(&m) {
-                out.bad.push(("client-maps-inconsistent".into(), e));
-            }
-            for (ci, c) in clients.iter().enumerate() {
-                let ours: Vec<SocketAddr> = if sc.socks {
-                    vec![c.relay.unwrap()]
-                } else {
-                    sc.targets.iter().map(|t| SocketAddr::from(([127, 0, 0, 1], w.udp_remote_ports[*t]))).collect()
-                };
-                for our in ours {
-                    let n = m.ids.iter().filter(|(_, p, o, s5)| *p == c.addr && *o == our && *s5 == sc.socks).count();
-                    if n != 1 {
-                        out.bad.push(("client-maps-missing-entry".into(), format!("client {ci} ({}) via {our}: {n} entries in the client id map right after its exchange", c.addr)));
-                    }
-                }
-            }
-        }
-    }
+    check_maps(&w, &sc, &clients, &mut out);
     out
 }
